@@ -116,7 +116,16 @@ let oracle parse_ip cfg (r : req) (a : ans) (res : result) (tv : z) : (string * 
                    ("certificate-issued-although-no-SNI-and-no-fallback-host san=" ^
                     (match c.c_san with SanIP s -> "IP:" ^ hex_of_chars s | SanDNS s -> "DNS:" ^ hex_of_chars s))
        | Some h ->
-           if not (cert_for_name parse_ip c h) then fail "never_other_name" ("cert-not-issued-for=" ^ hex_of_chars h)
+           if not (cert_for_name parse_ip c h) then begin
+             (* a SAN that spells the requested host but is of the wrong kind (DNS SAN for an IP
+                literal) is a certificate FOR that host that does not verify: reported under the
+                verification clause; any other SAN is a certificate for another name *)
+             match c.c_san, parse_ip h with
+             | SanDNS s, Some _ when s = h && not v ->
+                 fail "verifies_for_host_at_handshake"
+                   ("DNS-SAN-for-an-IP-literal(x509-matches-IP-hosts-against-IP-SANs-only) host=" ^ hex_of_chars h)
+             | _ -> fail "never_other_name" ("cert-not-issued-for=" ^ hex_of_chars h)
+           end
            else if not (chains cfg c) then fail "chains_to_ca" "x509-chain-verification-failed"
            else if not (cert_org_ok cfg c) then fail "organization" ("got=" ^ hex_of_chars c.c_org)
            else if not (cert_key_ok cfg c) then fail "key_held_by_proxy" "key/chain-shape"
